@@ -194,6 +194,8 @@ def monitor_e2e(c):
         rid = (s.get("epoch", 0), s["seq"])
         genuine = s["op"] == "deliver" and own and rid not in seen_rec
         newest = genuine and rid > max_ok
+        sent_before = sent.get(s.get("from"), 0)
+        repoch_before = c["steps"][i - 1]["repoch"] if i else c["repoch0"]
         for e in s["emits"]:
             # connection ID on every protected record the endpoint sends
             for rr in e["recs"]:
@@ -224,6 +226,18 @@ def monitor_e2e(c):
                 if sent[e["to"]] > 3 * recv.get(e["to"], 0):
                     return "step %d: %d bytes sent to unvalidated %s after receiving %d from it" % (
                         i, sent[e["to"]], e["to"], recv.get(e["to"], 0))
+        # liveness: the newest record received, carrying the endpoint's own ID, from an address that is not the
+        # active one must be answered by a path challenge to that address - unless a challenge to it is still
+        # pending (< 1 s old) or the three-times budget of that address cannot pay for it (conservative test)
+        if (c["neg"] and newest and s["rcid"] is not None and s["from"] != before
+                and s.get("rkind") in ("app", "hs", "ack", "chal") and rid[0] <= repoch_before):
+            pending = any(to == s["from"] and s["now"] < t + SECOND for _, to, t in chals)  # incl. this step's
+            need = c["wsize"] * (2 if s.get("rkind") == "chal" else 1)
+            affordable = c["wsize"] > 0 and sent_before + need <= 3 * s["bytes"]
+            if not pending and affordable:
+                return ("step %d: no path challenge for the newest received record (epoch %d, seq %d) that arrived "
+                        "from the new address %s (newest received before: (epoch %d, seq %d); the endpoint's remote "
+                        "epoch is %d)" % (i, rid[0], rid[1], s["from"], max_ok[0], max_ok[1], repoch_before))
         if s["delivered"]:
             if not (genuine and s.get("rkind") == "app" and s["read_ok"]):
                 return "step %d: Read returned a payload for a record that must not be accepted" % i
